@@ -16,6 +16,18 @@ CHECKS = {
    note="Trusted: snapshot/diff code; list order ignored as the property allows; floats compared to 1e-12 relative. Fault points: between operations and failing operations, not asynchronous interruption inside an operation.",
    technique="runtime invariant at context enter/exit hooks with fault workloads",
    ref="DESIGN.md §4 C03"),
+ "C07": dict(
+   level="exploration",
+   text="Independent oracle (truth table from the generator's own and/or tree) judged after every single knock-out: bounds of every reaction, gene.functional, reaction.functional and the solver's variable bounds; per generated model all gene subsets, all orders for subsets <= 4, four API forms, inside and outside a context (restore checked on exit).",
+   note="Trusted: 10-line tree evaluator, raw GLPK read-back. Models with 1-6 genes; larger rule sets not covered.",
+   technique="runtime oracle monitor over enumerated knock-out sequences",
+   ref="DESIGN.md §4 C07"),
+ "C08": dict(
+   level="exploration",
+   text="Independent truth-table oracle: every generated rule x spelling is parsed by the real GPR and judged on all 2^n knock-out subsets, again after to_string/str/copy/deepcopy/pickle-of-Reaction/symbolic round trips, on ==-pairs (equal => equivalent), and on remove_genes (surviving rule equivalent to the restriction); random trees over the awkward identifier classes the property lists plus all trees with <= 3/4 leaves over a 3-id alphabet.",
+   note="Trusted: generator keeps the tree, evaluator is 10 lines. Identifier alphabet limited to the stated character classes; <= 7 genes per rule.",
+   technique="runtime oracle monitor, bounded-exhaustive + random rules",
+   ref="DESIGN.md §4 C08"),
  "C15": dict(
    level="fault_enumeration",
    text="Reference-model monitor in lock-step with the real DictList: bounded-exhaustive operation sequences (every index in [-n-2,n+1], every slice, every failing argument position) plus seeded random long sequences; coherence, list-semantics equality and unchanged-on-raise judged after every step. Exhaustive within the stated bounds, sampled beyond.",
